@@ -108,7 +108,7 @@ def gas(lines, syntax="intel", scratch=None):
         res = [None] * len(lines)
         if not os.path.exists(lst):
             return res
-        first = re.compile(r"^\s*(\d+)\s+(?:\?{4}|[0-9a-fA-F]{4})\s+((?:[0-9A-F]+ )+)\s*\t")
+        first = re.compile(r"^\s*(\d+)\s+(?:\?{4}|[0-9a-fA-F]{4,})\s+((?:[0-9A-F]+ )+)\s*\t")
         cont = re.compile(r"^\s*(\d+)\s+([0-9A-F]+)\s*$")
         acc = {}
         with open(lst, errors="replace") as f:
